@@ -248,6 +248,14 @@ class LinkedGen:
             kinds = ["add_all", "add_all_at"] if sim.mix else ["splice", "splice", "splice_at", "splice_at", "add_all", "add_all_at"]
             c = rng.choice(kinds)
             o = f" o={a}" if a else ""
+            if c.startswith("add_all") and len(la) + len(lb) > 48:
+                # copies in both directions double the sizes; keep the lists far below the shims' log capacity
+                if sim.mix:
+                    big = a if len(la) >= len(lb) else b
+                    del sim.s[big][:]
+                    out.append("remove_all" + (f" o={big}" if big else ""))
+                    continue
+                c = "splice" if c == "add_all" else "splice_at"
             if c.endswith("_at"):
                 i = rng.choice([0, len(la) // 2, max(len(la) - 1, 0), len(la)]) if rng.random() < 0.85 else self.idx_choice(rng, len(la))
                 ok = lb and (i <= len(la) if self.dbl else i < len(la))
